@@ -281,3 +281,15 @@ def contracts():
     f = _c04.flush_contract()
     f.prop = "C03"
     return _c03_base3() + [f]
+
+
+# delivery also rests on the batching managers and on trigger (per-watcher scope, flags restored)
+_c03_base4 = contracts
+
+
+def contracts():
+    from contracts import c04 as _c04, c05 as _c05
+    extra = [c for c in _c05.contracts() if c.name in ("batch_call_watchers", "_batch_call_watchers", "discard_events")] + [_c04.trigger_contract()]
+    for c in extra:
+        c.prop = "C03"
+    return _c03_base4() + extra
